@@ -115,7 +115,13 @@ def build(targets=None, jobs=16):
         failed = re.findall(r"^File \"\./([^\"]+)\", line (\d+).*?\nError:?(.*?)(?:\n\n|\Z)", log, re.S | re.M)
         res = {"ok": r.returncode == 0, "stage": "coq", "log": log[-4000:], "failed_files": sorted({f for f, _, _ in failed}),
                "errors": [f"{f}:{l}: {e.strip()[:300]}" for f, l, e in failed][:10]}
-        # extraction + driver: needs only the Run/ layer, which holds definitions
+        # extraction + driver: needs only the Run/ layer, which holds definitions.  A Run/ file that does not compile must not leave a stale driver.
+        if any(f.startswith("Run/") for f in res["failed_files"]) or (not res["ok"] and not os.path.exists(os.path.join(COQ, "Run", "Dispatch.vo"))):
+            try: os.remove(os.path.join(OCAML, "driver"))
+            except OSError: pass
+            res.update(ok=False, stage="extraction", log="the observation layer does not compile: " + "; ".join(res["errors"])[:2000])
+            res["wall"] = time.time() - t0
+            return res
         stamp = os.path.join(OCAML, "gen", "stamp")
         h = hashlib.sha256()
         for p in coq_sources():
